@@ -659,7 +659,11 @@ func runStatements(ds int, phase string, stmts []refql.Stmt, inRef []bool, layou
 		}
 		if inRef[i] {
 			want := refql.Eval(s, all)
-			if d := compareRef(want, firstSeries); d != "" {
+			tol := 0.0
+			if s.Func == "mean" {
+				tol = 1e-12
+			}
+			if d := compareRef(want, firstSeries, tol); d != "" {
 				r.Violation("C11/reference-mismatch/"+funcClass(s)+fillClass(s), caseID, fmt.Sprintf("%s: server rows differ from the reference evaluation: %s", text, d),
 					map[string]interface{}{"statement": text, "server": clip(firstNorm), "diff": d})
 				continue
@@ -724,7 +728,9 @@ func firstDiff(a, b string) string {
 	return "?"
 }
 
-func compareRef(want []refql.Series, got []cluster.Row) string {
+// tol > 0: float values may differ by that relative amount (mean(): the sum is
+// accumulated in an order the reference does not reproduce bit for bit).
+func compareRef(want []refql.Series, got []cluster.Row, tol float64) string {
 	if len(want) != len(got) {
 		return fmt.Sprintf("reference has %d series, server returned %d", len(want), len(got))
 	}
@@ -757,7 +763,7 @@ func compareRef(want []refql.Series, got []cluster.Row) string {
 			if ti != w.Rows[j].T {
 				return fmt.Sprintf("series %d (%v) row %d: reference time %d, server %d", i, w.Tags, j, w.Rows[j].T, ti)
 			}
-			if !sameVal(w.Rows[j].V, row[1]) {
+			if !sameVal(w.Rows[j].V, row[1]) && !closeFloat(w.Rows[j].V, row[1], tol) {
 				return fmt.Sprintf("series %d (%v) row %d t=%d: reference value %v, server %v", i, w.Tags, j, ti, w.Rows[j].V, row[1])
 			}
 			for a, av := range w.Rows[j].Aux {
@@ -768,6 +774,30 @@ func compareRef(want []refql.Series, got []cluster.Row) string {
 		}
 	}
 	return ""
+}
+
+func closeFloat(want interface{}, got interface{}, tol float64) bool {
+	w, ok := want.(float64)
+	if !ok || tol <= 0 {
+		return false
+	}
+	n, ok := got.(json.Number)
+	if !ok {
+		return false
+	}
+	f, err := n.Float64()
+	if err != nil {
+		return false
+	}
+	d := f - w
+	if d < 0 {
+		d = -d
+	}
+	m := w
+	if m < 0 {
+		m = -m
+	}
+	return d <= tol*m
 }
 
 func sameVal(want interface{}, got interface{}) bool {
